@@ -187,7 +187,7 @@ TABLE = ['a', 'é', '\U0001f600', 'a b', 'x\ny', '\x85', ' ', '', ['a', 'é'],
 def encodings(k: int, enc_i: int, allow_unicode: bool) -> str:
     """no stream given: bytes in the requested encoding (UTF-16 with BOM) or str when none was requested"""
     v = pick(k, TABLE)
-    enc = pick(enc_i, [None, 'utf-8', 'utf-16-le', 'utf-16-be'])
+    enc = pick(enc_i, [None, 'utf-8', 'utf-16-le', 'utf-16-be', 'utf-16'])
     try:
         ref = yaml.safe_dump(v, allow_unicode=allow_unicode)
         got = yaml.safe_dump(v, allow_unicode=allow_unicode, encoding=enc)
@@ -200,7 +200,11 @@ def encodings(k: int, enc_i: int, allow_unicode: bool) -> str:
         return 'ok' if (type(got) is str and got == ref) else fail(P, 'ENCODING None', k=k)
     if type(got) is not bytes:
         return fail(P, 'ENCODING result with encoding=%s is not bytes' % enc, k=k)
-    if enc.startswith('utf-16'):
+    if enc == 'utf-16':
+        # endianness left to the codec: one BOM at the start, then the text
+        if got.decode('utf-16') != ref:
+            return fail(P, 'ENCODING utf-16 output (endianness not given) does not decode to the str result', k=k, enc_i=enc_i)
+    elif enc.startswith('utf-16'):
         bom = b'\xff\xfe' if enc == 'utf-16-le' else b'\xfe\xff'
         if not got.startswith(bom):
             return fail(P, 'ENCODING no BOM in UTF-16 output', k=k)
@@ -209,7 +213,7 @@ def encodings(k: int, enc_i: int, allow_unicode: bool) -> str:
     elif got.decode('utf-8') != ref:
         return fail(P, 'ENCODING UTF-8 output does not decode to the str result', k=k)
     if yaml.safe_load(got) != v:
-        return fail(P, 'ENCODING output does not load back', k=k)
+        return fail(P, 'ENCODING output does not load back', k=k, enc_i=enc_i)
     return 'ok'
 
 
@@ -272,8 +276,8 @@ def jobs(tier):
                   bounds='3 nested structures x indent 0..11 x {plain, literal} styles'))
     js.append(Job('markers', markers, [lambda estart, eend, ver, tg, r0, r1, canonical, style_i: 0 <= r0 <= 5 and 0 <= r1 <= 5 and (style_i == 0 if q else 0 <= style_i <= 4)],
                   budget=250, bounds='2 documents of 6 root kinds x explicit_start x explicit_end x version x tags x canonical'))
-    js.append(Job('encodings', encodings, [lambda k, enc_i, allow_unicode: 0 <= k < len(TABLE) and 0 <= enc_i <= 3], budget=120,
-                  bounds='%d values x encoding in {None, utf-8, utf-16-le, utf-16-be} x allow_unicode' % len(TABLE)))
+    js.append(Job('encodings', encodings, [lambda k, enc_i, allow_unicode: 0 <= k < len(TABLE) and 0 <= enc_i <= 4], budget=120,
+                  bounds='%d values x encoding in {None, utf-8, utf-16-le, utf-16-be, utf-16} x allow_unicode' % len(TABLE)))
     js.append(Job('canonical', canonical, [lambda k, allow_unicode, narrow: 0 <= k < len(TABLE) + 6], budget=250,
                   bounds='%d values in canonical form x allow_unicode x width {5,80}, against tests/legacy_tests/canonical.py' % (len(TABLE) + 6)))
     return js
